@@ -85,13 +85,13 @@ func c16ECIES(t *rapid.T, ev *evProp) {
 			}
 		}
 	case "bitflip":
-		pos := rapid.IntRange(0, len(ct)*8-1).Draw(t, "bit")
+		pos := uniformInt(t, 0, len(ct)*8-1, "bit")
 		mct[pos/8] ^= 1 << uint(pos%8)
 	case "pointflip":
 		pos := rapid.IntRange(0, pl*8-1).Draw(t, "bit")
 		mct[pos/8] ^= 1 << uint(pos%8)
 	case "truncate":
-		mct = mct[:rapid.IntRange(0, len(ct)-1).Draw(t, "tl")]
+		mct = mct[:uniformInt(t, 0, len(ct)-1, "tl")]
 	case "extend":
 		mct = append(mct, rapid.SliceOfN(rapid.Byte(), 1, 20).Draw(t, "ext")...)
 	case "otherhash":
@@ -153,7 +153,7 @@ func ibeCombos() []ibeCombo {
 
 func c16IBE(t *rapid.T, ev *evProp) {
 	cs := ibeCombos()
-	c := cs[rapid.IntRange(0, len(cs)-1).Draw(t, "combo")]
+	c := cs[uniformInt(t, 0, len(cs)-1, "combo")]
 	s := c.si.S
 	hs := s.Hash().Size()
 	// master key pair and identity key
@@ -253,19 +253,19 @@ func c16IBE(t *rapid.T, ev *evProp) {
 		if len(m.V) == 0 {
 			applies = false
 		} else {
-			m.V = m.V[:rapid.IntRange(0, len(m.V)-1).Draw(t, "vl")]
+			m.V = m.V[:uniformInt(t, 0, len(m.V)-1, "vl")]
 		}
 	case "Wtrunc":
 		if len(m.W) == 0 {
 			applies = false
 		} else {
-			m.W = m.W[:rapid.IntRange(0, len(m.W)-1).Draw(t, "wl")]
+			m.W = m.W[:uniformInt(t, 0, len(m.W)-1, "wl")]
 		}
 	case "VWtrunc":
 		if len(m.W) == 0 {
 			applies = false
 		} else {
-			l := rapid.IntRange(0, len(m.W)-1).Draw(t, "l")
+			l := uniformInt(t, 0, len(m.W)-1, "l")
 			m.V, m.W = m.V[:l], m.W[:l]
 		}
 	case "Wextend":
@@ -364,7 +364,7 @@ func c16Anon(t *rapid.T, ev *evProp) {
 	case "macflip":
 		flipIn(len(ct)-16, len(ct))
 	case "truncate":
-		mct = mct[:rapid.IntRange(0, len(ct)-1).Draw(t, "tl")]
+		mct = mct[:uniformInt(t, 0, len(ct)-1, "tl")]
 	case "extend":
 		mct = append(mct, rapid.SliceOfN(rapid.Byte(), 1, 20).Draw(t, "ext")...)
 	}
